@@ -14,7 +14,7 @@ from .refvm import norm_module
 
 RESOLVE = ("GLOBAL", "SG_SHORT", "SG_BIN", "SG_UNICODE", "SG_MEMO", "INST")
 CALL = ("none", "reduce_t1", "reduce_mark", "reduce_empty", "obj", "newobj", "newobj_ex")
-CALLEE = ("global", "call_result", "getattr")
+CALLEE = ("global", "call_result", "getattr", "memo_overwrite")
 DISPOSAL = ("result", "pop", "pop_mark", "below", "build_target", "build_state", "memo",
             "dup_tuple2", "in_list", "in_dict", "in_tuple", "arg_benign")  # fmt: skip
 FRAMING = ("bare", "proto2", "proto4_frame", "benign_before", "benign_around")
@@ -130,6 +130,18 @@ def build(cell):
             b.glob(module, name, resolve)
             b.emit("EMPTY_TUPLE")
             b.emit("REDUCE")
+        elif callee == "memo_overwrite":
+            # "differ only in memo use": a benign global is PUT at the index the next MEMOIZE
+            # will use, the real callee is MEMOIZEd over it, and fetched back by that index
+            b.glob(*BENIGN_CALLEE)
+            k = b.memo_len + 1
+            b.emit("BINPUT", k)
+            b.memo_len += 1
+            b.emit("POP")
+            b.glob(module, name, resolve)
+            b.emit("MEMOIZE")  # the VM writes slot len(memo) == k
+            b.emit("POP")
+            b.emit("BINGET", k)
         elif callee == "getattr":
             b.glob(*GETATTR)
             b.emit("MARK")
